@@ -73,13 +73,15 @@ def gen_case(rng):
     perm = rng.permutation(len(assets))
     assets = [assets[int(i)] for i in perm]
     kind = gen.pick(rng, ['normal', 'sin', 'neg', 'neg', 'tail_neg']) if mode in ('nosimult', 'lp') else gen.pick(rng, ['normal', 'sin', 'neg', 'tail_neg', 'tail_neg', 'head_neg'])
-    if mode == 'lp' and rng.random() < 0.25:
+    if mode == 'lp' and rng.random() < 0.4:
         # one of the storages wrapped in a scaled asset of fixed scale (norm scale != 1): the same physics at s / norm_scale times the sizes
         k_ = next((i for i, a in enumerate(assets) if a['type'] == 'Storage' and not a.get('start') and not a.get('end') and not a.get('freq')), None)
         if k_ is not None:
             b_ = assets[k_]; b_name = b_['name']; b_['name'] = b_name + '_base'; b_['wacc'] = 0.
             sc_ = float(gen.pick(rng, [1., 2., 8.]))
-            assets[k_] = {'type': 'ScaledAsset', 'name': b_name, 'base': b_, 'min_scale': sc_, 'max_scale': sc_, 'norm_scale': float(gen.pick(rng, [2., 4., 1.])), 'fix_costs': 0., 'wacc': 0.}
+            free_ = rng.random() < 0.6          # (the size chosen by the optimiser: fix costs make an interior size attractive)
+            assets[k_] = {'type': 'ScaledAsset', 'name': b_name, 'base': b_, 'min_scale': 0. if free_ else sc_, 'max_scale': 8. if free_ else sc_, 'norm_scale': float(gen.pick(rng, [2., 4., 1.])),
+                          'fix_costs': gen.r2(gen.pick(rng, [0.02, 0.2, 1.]) * f) if free_ else 0., 'wacc': 0.}
     return {'grid': g, 'assets': assets, 'prices': gen.gen_prices(rng, T, sorted(set(pk)), kind=kind)}, mode
 
 
@@ -303,9 +305,17 @@ def run_case(rng, tier, case):
             if len(a['nodes']) == 2: case.feature('two_nodes')
             if check_storage(case, gen.strip_private(a), ev.snap, np.asarray(r.res.x, float), clock, r.out, r.built.timegrid.T):
                 nt = True
-        elif a['type'] == 'ScaledAsset' and a['base']['type'] == 'Storage' and a['min_scale'] == a['max_scale']:
-            # a storage of fixed scale s (sizes per norm scale): the physics of a storage whose rates, size, levels and inflow are s / norm_scale times the base's
-            b_ = gen.strip_private(a['base']); k_ = a['min_scale'] / a['norm_scale']
+        elif a['type'] == 'ScaledAsset' and a['base']['type'] == 'Storage':
+            # a storage of scale s (fixed, or chosen by the optimiser and reported; sizes per norm scale): the physics of a storage whose rates, size, levels and
+            # inflow are s / norm_scale times the base's
+            s_star = a['min_scale']
+            if a['min_scale'] != a['max_scale']:
+                sp_ = r.out.get('special')
+                row_ = sp_[(sp_['asset'] == a['name']) & (sp_['name'] == 'scale')] if sp_ is not None and len(sp_) else []
+                if len(row_) != 1:
+                    continue
+                s_star = float(row_['value'].iloc[0])
+            b_ = gen.strip_private(a['base']); k_ = s_star / a['norm_scale']
             eff_ = dict(b_, name=a['name'], **{q: b_[q] * k_ for q in ('cap_in', 'cap_out', 'size', 'start_level', 'end_level', 'inflow') if b_.get(q) is not None})
             eff_['_no_reported_series'] = True
             case.feature('storage_inside_scaled_asset')
